@@ -20,9 +20,9 @@ FUNCTIONS = ["Resampler.__init__ (window end + hand-aligned timer start)", "Resa
 SHIMS = resamp.SHIMS + [
     "frequenz.channels.Timer is replaced by a stand-in: constructed with the same arguments, records the hand-set _next_tick_time, and as async iterator yields one tick "
     "per period with an arbitrary symbolic drift (TriggerAllMissed contract: no tick is ever dropped, lateness arbitrary)",
-    "async_solipsism virtual-time loop; sink latency is invisible to the code except through timer drift, which is arbitrary",
+    "async_solipsism virtual-time loop; sink latency reaches the tick loop through timer drift, which is arbitrary; in the slow-sink instance a sink additionally blocks for 0.5/1.5/3 periods of loop time",
 ]
-ASSUMPTIONS = ["now in [0, 1e15] us since the epoch, align_to in [-1e15, 2e15] us or None, period in [1 us, 1e10 us] (symbolic, non-linear integer arithmetic)",
+ASSUMPTIONS = ["now in [0, 1e15] us since the epoch, align_to in [-1e15, 2e15] us (UTC) or one of 18 concrete aware datetimes in zones +01:00/-05:00/+05:30/+05:45/-03:30/UTC, or None, period in [1 us, 1e10 us] (symbolic, non-linear integer arithmetic)",
                "tick loop: period 1 s, drift of each tick symbolic in [0, 5 periods]", "exact integer microsecond arithmetic as in CPython's datetime"]
 BOUNDS = {"quick": "(a) alignment for every now/align_to/period; (b) 3 series (one added after the first tick) x 4 ticks; sink failure at a symbolic tick followed by removal and restart",
           "thorough": "(b) 4 series x 6 ticks, failures at two ticks"}
@@ -57,11 +57,22 @@ class StubTimer:
         pass
 
 
-def make_window_end(aligned, reach=False):
+TZ_OFFSETS_MIN = [60, -300, 330, 345, -210, 0]
+
+
+def make_window_end(aligned, reach=False, tz=False):
+    """tz: align_to is a concrete aware datetime expressed in a non-UTC zone (one of TZ_OFFSETS_MIN, any of 3 wall-clock instants);
+    the grid must be anchored on the *instant* it denotes."""
     def fn(ex):
         now = ex.dt("now", 0, 10**15)
         per = ex.td("period", 1, 10**10)
-        al = ex.dt("align_to", -10**15, 2 * 10**15) if aligned else None
+        if tz:
+            from datetime import datetime
+            off = TZ_OFFSETS_MIN[ex.choice("tz_offset", len(TZ_OFFSETS_MIN))]
+            wall = [(2024, 1, 1, 0, 0, 0, 0), (2031, 6, 30, 23, 59, 59, 999999), (1999, 12, 31, 12, 0, 0, 1)][ex.choice("wall", 3)]
+            al = datetime(*wall, tzinfo=timezone(timedelta(minutes=off)))
+        else:
+            al = ex.dt("align_to", -10**15, 2 * 10**15) if aligned else None
         Clock.now = now
         StubTimer.instances.clear()
         rs.Timer = StubTimer
@@ -81,7 +92,8 @@ def make_window_end(aligned, reach=False):
         nowu, weu, peru = EI(now), EI(we), EI(per)
         ex.check(z3.And(weu >= nowu, weu <= nowu + 2 * peru), "first window end is before creation or more than two periods after it")
         if aligned:
-            ex.check((weu - EI(al)) % peru == 0, "first window end is not on the align_to grid")
+            alu = z3.IntVal(core.dt_us(al)) if tz else EI(al)
+            ex.check((weu - alu) % peru == 0, "first window end is not on the align_to grid")
         else:
             ex.check(weu == nowu + peru, "without align_to the first window must end one period after creation")
         # the hand-set timer start must coincide with the first window end
@@ -90,8 +102,9 @@ def make_window_end(aligned, reach=False):
     return fn
 
 
-def make_ticks(nser, nticks, fail=False, reach=False, add_in_sink=False):
-    """add_in_sink: the last series is added from inside a sink, i.e. while resample() is suspended in its gather over all series."""
+def make_ticks(nser, nticks, fail=False, reach=False, add_in_sink=False, slow=False):
+    """slow: the sink of series 1 takes 0.5 / 1.5 / 3 periods (loop time) to accept the sample of a symbolic tick.
+    add_in_sink: the last series is added from inside a sink, i.e. while resample() is suspended in its gather over all series."""
     def fn(ex):
         now = ex.dt("now", 0, 10**15)
         al = ex.dt("align_to", 0, 10**15)
@@ -99,6 +112,8 @@ def make_ticks(nser, nticks, fail=False, reach=False, add_in_sink=False):
         rs.Timer = StubTimer
         drifts = [ex.td(f"drift{k}", 0, 5 * PUS) for k in range(nticks)]
         fail_tick = ex.choice("fail_tick", nticks) if fail else None
+        slow_tick = ex.choice("slow_tick", nticks) if slow else None
+        latency = [0.5, 1.5, 3.0][ex.choice("sink_latency", 3)] if slow else 0.0
         got = [[] for _ in range(nser)]
         tick_no = [0]
 
@@ -112,6 +127,8 @@ def make_ticks(nser, nticks, fail=False, reach=False, add_in_sink=False):
             async def sink(s):
                 if fail and i == 0 and tick_no[0] == fail_tick:
                     raise RuntimeError("sink failed")
+                if slow and i == 1 and tick_no[0] == slow_tick:
+                    await asyncio.sleep(latency)   # a slow consumer: the sample is accepted only now
                 got[i].append(s.timestamp)
                 if add_in_sink and i == 0 and tick_no[0] == 0:
                     await asyncio.sleep(0)   # the gather is pending: a series is added right now
@@ -160,9 +177,13 @@ def instances(tier):
     out = [
         I("reach:window-end", "make_window_end", (True, True), "reachability twin", budget_s=60, validate_every=0),
         I("window-end-aligned", "make_window_end", (True,), "symbolic now / align_to / period", budget_s=200, timeout_ms=60000, validate_every=1, max_validate=20),
+        I("window-end-tz", "make_window_end", (True, False, True), "align_to is an aware datetime in a non-UTC zone (6 offsets x 3 wall-clock instants), symbolic now / period",
+          budget_s=150, timeout_ms=30000, validate_every=1, max_validate=20),
         I("window-end-unaligned", "make_window_end", (False,), "align_to=None", budget_s=100, validate_every=1),
         I("ticks-3x4", "make_ticks", (3, 4), "3 series (one added after the first tick), 4 ticks, symbolic drifts", budget_s=200, validate_every=5),
         I("ticks-3x4-sinkfail", "make_ticks", (3, 4, True), "a sink raises at a symbolic tick, series removed, loop restarted", budget_s=200, validate_every=5),
+        I("ticks-3x4-slow-sink", "make_ticks", (3, 4, False, False, False, True), "one sink takes 0.5 / 1.5 / 3 periods to accept the sample of a symbolic tick",
+          budget_s=200, validate_every=5),
         I("ticks-3x4-add-during-gather", "make_ticks", (3, 4, False, False, True), "a series is added while resample() is suspended in its gather (from a sink)",
           budget_s=200, validate_every=5),
     ]
